@@ -17,19 +17,21 @@ CLAIMED = {
 
 CLAIMED["C01"] = dict(
     text="Coq theorems: the operator table of the model equals the table regenerated from /repo; the shunting-yard machine parses the token "
-         "sequence of every precedence-respecting expression tree (unbounded nesting, '|' parts, two-sided) to that tree; the operator semantics "
-         "satisfy the documented identities for all ordered term sets; degree ordering is a stable sort. The full pipeline model is evaluated in "
+         "sequence of every precedence-respecting expression tree (unbounded nesting, '|' parts, two-sided) to that tree, and evaluates it to the tree's "
+         "denotation in the documented algebra written directly on trees (C01_tokens_denote); the operator semantics "
+         "satisfy the documented identities for all ordered term sets and as equalities of tree denotations; degree ordering is a stable sort. The full pipeline model is evaluated in "
          "Coq on every generated formula and must equal the implementation's term lists; an independent evaluator of the documented algebra over "
          "the generator's own trees is the direct oracle.",
-    note="Coq kernel + vm_compute; translator for the operator table; hand-written pipeline model tied by correspondence; ast.unparse/required_variables oracles; end-to-end print->denotation theorem not mechanised",
+    note="Coq kernel + vm_compute; translator for the operator table; hand-written pipeline model tied by correspondence; ast.unparse/required_variables oracles; the characters->tokens step is tied by correspondence, not by the end-to-end theorem",
     technique="Coq proof (induction over expression trees on a shunting-yard machine model; algebraic identities) + generated operator table + in-Coq correspondence",
     design="8 C01")
 CLAIMED["C14"] = dict(
     text="The complete parsing pipeline is a total Gallina function with one error constructor per Python exception class; theorems (all strings, "
-         "all flag subsets, all classifiers): the AST builder raises only the syntax error; an internal exception escapes only as the recorded "
-         "KeyError finding; a plain SyntaxError only when a Python fragment is invalid. The model must return the implementation's exact outcome "
+         "all flag subsets, all classifiers): the AST builder raises only the syntax error; with MULTISTAGE off NO internal exception class escapes "
+         "(every returned AST is well-sorted -- an invariant of the shunting-yard machine -- and the evaluator never gets stuck on a well-sorted AST); "
+         "operators disabled by feature flags never occur in a returned AST; a plain SyntaxError only when a Python fragment is invalid. The model must return the implementation's exact outcome "
          "(terms or exception class) on grammar strings, mutations, token soup and all short strings.",
-    note="Coq kernel + vm_compute; Python-fragment validity is an oracle; MULTISTAGE results not modelled; stuck marker (class 5) for ill-sorted operands not proved unreachable",
+    note="Coq kernel + vm_compute; Python-fragment validity is an oracle; MULTISTAGE results not modelled (with it on the model can be stuck: C14_multistage_is_outside)",
     technique="Coq proof of error-constructor unreachability over a total parser model + exhaustive short-string and generated correspondence",
     design="8 C14")
 CLAIMED["C15"] = dict(
@@ -69,9 +71,10 @@ CLAIMED["C06"] = dict(
 CLAIMED["C04"] = dict(
     text="Gallina model `replay` of spec reuse (rehydrated scoped terms, pinned categories, _enforce_structure). Theorems: any successful reuse has "
          "exactly the recorded column names in the recorded order, on every data set; pinned encodings have data-independent names; absent levels give "
-         "zero columns; cells are row-wise. The model equals the implementation (exact matrix, names, drop set or error class) on train/follow-up "
+         "zero columns; the spec a build records replays to the same matrix (C04_replay_reproduces); for pinned levels and no nulls, replay on ANY selection of rows is the "
+         "selected rows of the replay (C04_replay_is_rowwise). The model equals the implementation (exact matrix, names, drop set or error class) on train/follow-up "
          "histories incl. pickled specs; reproduction, row-wise behaviour and pickling are checked directly for every stateful transform.",
-    note="Coq kernel + vm_compute; pickling and stateful transforms (center/scale/poly/bs/cr/cc) are outside the replay model and covered by the direct oracle; replay_reproduces/replay_rowwise at matrix level not mechanised",
+    note="Coq kernel + vm_compute; pickling and stateful transforms (center/scale/poly/bs/cr/cc) are outside the replay model and covered by the per-transform models (C12, C13) and the direct oracle",
     technique="Coq proof over the replay model + in-Coq correspondence of (train, follow-up) histories + implementation-level row-wise oracle",
     design="8 C04")
 CLAIMED["C07"] = dict(
@@ -110,9 +113,11 @@ CLAIMED["C08"] = dict(
 CLAIMED["C10"] = dict(
     text="Gallina model of the metadata derived from `structure`. Theorems: per-term ranges concatenate to 0..ncols-1; a term looked up by object or by its "
          "printed form in ANY factor order (sorting is canonical: total-order proof for Python string order) gets the range of its own row; a column "
-         "name selects a position carrying that name; the built matrix's labels are the structure's column entries. Model answers = implementation "
-         "answers for every accessor; subset regeneration checked directly.",
-    note="Coq kernel + vm_compute; dict lookup of str in Term-keyed mapping modelled as sorted-key equality (hash collisions ignored); subset on implementation only",
+         "name selects a position carrying that name; the built matrix's labels are the structure's column entries; variable_indices = exactly the positions of "
+         "the terms using the variable; subset = the parent's names at the parent's get_term_indices positions in the order chosen, and replaying any selection "
+         "of structure rows gives each term the parent's columns. Model answers = implementation answers for every accessor incl. subset/get_term_indices and "
+         "the replay of subset specs.",
+    note="Coq kernel + vm_compute; dict lookup of str in Term-keyed mapping modelled as sorted-key equality (hash collisions ignored)",
     technique="Coq proof (ranges partition, canonical sorting, dict insert semantics) + in-Coq correspondence of every metadata accessor",
     design="8 C10")
 
@@ -120,7 +125,7 @@ CLAIMED["C11"] = dict(
     text="Entry-wise Gallina definitions of every built-in coding matrix for symbolic n. Theorems for EVERY n: columns sum to zero (sum, Helmert in "
          "four variants, difference in both directions, polynomial), K.[1|C] = I for the textbook coefficient matrix K (treatment with any base incl. "
          "SAS, sum, difference), Helmert columns are orthogonal with norms (c+1)(c+2) / (n-c-1)(n-c), the polynomial coding is the monic orthogonal "
-         "family of the recorded three-term recurrence with unit columns, the full coding is the identity, indicator x coding = row selection. "
+         "family of the recorded three-term recurrence with unit columns and Gram matrix diag(n,1,..,1) (explicit inverse), the full coding is the identity, indicator x coding = row selection. "
          "Model = implementation on every coding-matrix cell for n <= 12/40 and on encoded data vectors; shape, inverse, textbook K, dense = sparse, "
          "R constructions, names and metadata are also evaluated directly on the implementation.",
     note="Coq kernel + vm_compute; numpy/scipy linear algebra (inv, sqrt, matmul) observed not modelled; polynomial cells compared within 2^-24 relative, "
